@@ -19,7 +19,7 @@ func (impl Implementation) Dlasq5(i0, n0 int, z []float64, pp int, tau, sigma fl
 		panic(i0LT0)
 	case n0 < 0:
 		panic(n0LT0)
-	case len(z) < 4*n0:
+	case len(z) < 4*(n0+1):
 		panic(shortZ)
 	case pp != 0 && pp != 1:
 		panic(badPp)
